@@ -139,6 +139,29 @@ fn char_set_next_probes(a: &Automaton, rng: &mut Rng) -> Value {
 /// pruned and its tables / edges / counters are observed, before and after (whatever build() accepts is an automaton
 /// the C14 operations must be right about)
 static PRUNE_SINK: std::sync::Mutex<Option<(Vec<Value>, u64, u64)>> = std::sync::Mutex::new(None);
+/// the same for C04: minimize() on what the builder returns
+static MIN_SINK: std::sync::Mutex<Option<(Vec<Value>, u64, u64)>> = std::sync::Mutex::new(None);
+
+fn builder_minimize_record(calls: &[Call]) -> Option<Value> {
+    let cj: Vec<Value> = calls.iter().map(call_json).collect();
+    let reps0 = label_reps(calls);
+    let r = guarded(|| -> Result<(AutDump, AutDump, Value), String> {
+        let a1 = run_calls(calls).build().map_err(|e| format!("{:?}", e))?;
+        let mut a2 = run_calls(calls).build().map_err(|e| format!("{:?}", e))?;
+        touch(&a2);
+        a2.minimize();
+        let db0 = dump_automaton(&a2, &[], &reps0);
+        let da = dump_automaton(&a1, &[], &db0.reps);
+        let db = dump_automaton(&a2, &[], &da.reps);
+        let s = structure(&a2, &db);
+        Ok((da, db, s))
+    });
+    match r {
+        Ok(Ok((da, db, s))) => Some(json!({"op":"minimize","calls":cj,"style":7,"pre":"none","before":da.json(),"after":db.json(),"str":s})),
+        Ok(Err(_)) => None,
+        Err(msg) => Some(json!({"op":"panic","calls":cj,"where":"minimize","msg":msg})),
+    }
+}
 
 fn builder_prune_record(calls: &[Call], seed: u64) -> Option<Value> {
     let cj: Vec<Value> = calls.iter().map(call_json).collect();
@@ -168,6 +191,15 @@ fn builder_prune_record(calls: &[Call], seed: u64) -> Option<Value> {
 /// one builder behaviour: calls as given, then build()
 fn builder_record(calls: &[Call], gen_verdict: &str) -> Value {
     let cj: Vec<Value> = calls.iter().map(call_json).collect();
+    if let Some((sink, k, seed)) = MIN_SINK.lock().unwrap().as_mut() {
+        *k += 1;
+        let nadd = calls.iter().filter(|c| matches!(c, Call::Add(..))).count();
+        if *k % 2 == *seed % 2 && nadd <= 8 {
+            if let Some(v) = builder_minimize_record(calls) {
+                sink.push(v);
+            }
+        }
+    }
     if let Some((sink, k, seed)) = PRUNE_SINK.lock().unwrap().as_mut() {
         *k += 1;
         // (small specifications only: the validator's fixpoints grow with labels x states)
@@ -244,6 +276,9 @@ pub fn drive_builder(a: &Args) {
     let mut out = Out::create(&a.out, "builder_random.ndjson");
     if arg(a, "--for").as_deref() == Some("C14") {
         *PRUNE_SINK.lock().unwrap() = Some((vec![], 0, a.seed));
+    }
+    if arg(a, "--for").as_deref() == Some("C04") {
+        *MIN_SINK.lock().unwrap() = Some((vec![], 0, a.seed));
     }
     for _ in 0..a.sz(1500, 30000) {
         let ns = rng.range(1, 4);
@@ -525,6 +560,13 @@ pub fn drive_builder(a: &Args) {
             calls.push(Call::Fin(1));
             out.emit(builder_record(&calls, ""));
         }
+    }
+    if let Some((sink, _, _)) = MIN_SINK.lock().unwrap().take() {
+        let mut po = Out::create(&a.out, "builder_minimize.ndjson");
+        for v in sink {
+            po.emit(v);
+        }
+        po.finish();
     }
     if let Some((sink, _, _)) = PRUNE_SINK.lock().unwrap().take() {
         let mut po = Out::create(&a.out, "builder_prune.ndjson");
